@@ -131,7 +131,10 @@ class Inst:
     n, fi, lo, w, t = self.resolve(e, env)
     if n == "$loc": return (env[fi] >> lo) & mask(w), w
     if fi == "oob": return 0, w                       # out-of-range read yields 0 in two-state
-    if fi is None or isinstance(fi, list): raise Unsupported(f"whole unpacked array used as a value: {e}")
+    if fi is None or isinstance(fi, list):
+      # IEEE 1800 7.4/7.6: an unpacked array (or a slice of unpacked dimensions) is not an integral value; using it as an operand /
+      # assigning it to a vector is a type error that every tool rejects
+      raise SvSyntaxError(f"ill-typed: unpacked array {n} used as an integral value in module {self.m['name']}")
     return (self.val[n][fi] >> lo) & mask(w), w
 
   def write(self, e, v, env, nba=False):
